@@ -245,6 +245,66 @@ fn long_definition(spec: &Spec, len: usize, st: &mut Stats, sink: &Sink) {
     }
 }
 
+/// Scale families at f64 (a run past 2^16 updates, a window past 2^8, a window past 2^16): the
+/// integer-valued drivers of `scale_drivers`; interval and definition judged at the steps in `at`
+/// (Ema, whose reference is a running recursion, at every step).
+fn scale_definition(spec: &Spec, len: usize, at: &std::collections::BTreeSet<usize>, st: &mut Stats, sink: &Sink) {
+    st.configs += 1;
+    let n = spec.n;
+    let is_ema = matches!(spec.kind, Kind::Ema | Kind::EmaAlpha);
+    let cond = alma_condition(spec);
+    for (name, hist) in scale_drivers(len, n) {
+        let r = guard(|| {
+            let mut v = build::<f64>(spec);
+            let w_ema = if spec.kind == Kind::Ema { 2.0 } else if spec.kind == Kind::EmaAlpha { spec.p[0] } else { 0.0 } / (n as f64 + 1.0);
+            let (mut e, mut lo_all, mut hi_all) = (0.0f64, f64::MAX, f64::MIN);
+            for i in 0..len {
+                v.update(hist[i]);
+                e = if i == 0 { hist[0] } else { w_ema * hist[i] + (1.0 - w_ema) * e };
+                lo_all = lo_all.min(hist[i]);
+                hi_all = hi_all.max(hist[i]);
+                if !is_ema && !at.contains(&i) {
+                    continue;
+                }
+                let Some(g) = v.last() else { continue };
+                let h = &hist[..=i];
+                let (lo, hi) = if is_ema { (lo_all, hi_all) } else { (refs::minv(refs::window(h, n)), refs::maxv(refs::window(h, n))) };
+                let slack = 1e-9 * (1.0 + lo.abs().max(hi.abs())) * cond;
+                if !(g >= lo - slack && g <= hi + slack) {
+                    return Some((i, "interval", format!("output {:e} outside [{:e}, {:e}] spanned by the averaged values", g, lo, hi)));
+                }
+                let ok = match spec.kind {
+                    Kind::Sma => (g - refs::mean(refs::window(h, n))).abs() <= slack,
+                    Kind::Ema | Kind::EmaAlpha => (g - e).abs() <= slack,
+                    _ => {
+                        let (sg, of) = alma_params(spec);
+                        (g - refs::alma_insertion(h, n, sg, of)).abs() <= slack || (g - refs::alma_positional(h, n, sg, of)).abs() <= slack
+                    }
+                };
+                if !ok {
+                    return Some((i, "definition", format!("output {:e} is not the defined average of its window", g)));
+                }
+            }
+            None
+        });
+        st.transitions += len as u64;
+        st.states += len as u64;
+        st.oracle_evals += if is_ema { len } else { at.len() } as u64;
+        st.traces += 1;
+        match r {
+            Ok(Some((i, clause, d))) => {
+                sink.push(Violation::new("C04", spec, clause, "f64", &hist[..=i], format!("driver '{}', after {} updates: {}", name, i + 1, d)));
+                return;
+            }
+            Ok(None) => {}
+            Err(m) => {
+                sink.push(Violation::new("C04", spec, "panicked", "f64", &hist, m));
+                return;
+            }
+        }
+    }
+}
+
 /// Conditioning of Alma's running weighted sums on a constant stream: once the window has slid,
 /// every held sample carries w(N-1); when a sample with a larger weight w_max has been evicted,
 /// its rounding residue (eps * w_max * |c|) is seen relative to the remaining N * w(N-1).
@@ -324,6 +384,19 @@ pub fn run(ctx: &Ctx) -> CheckOutput {
             long_definition(&spec, if quick { 300 } else { 1200 }, &mut st, &sink);
             JobOut { stats: st, viols: sink.take(), samples: vec![] }
         }));
+    }
+    // scale families: long run, wide window, huge window (only where an update costs O(1))
+    for base in [Spec::un(Kind::Sma, 0, Spec::echo()), Spec::un(Kind::Ema, 0, Spec::echo()), Spec::unp(Kind::EmaAlpha, 0, vec![0.5], Spec::echo()), Spec::un(Kind::Alma, 0, Spec::echo()), Spec::unp(Kind::AlmaCustom, 0, vec![4.0, 0.5], Spec::echo())] {
+        let cheap = !matches!(base.kind, Kind::Alma | Kind::AlmaCustom);
+        for (label, n, len, at) in scale_families(&|n| n, quick, cheap, false) {
+            let spec = Spec { n, ..base.clone() };
+            jobs.push(Box::new(move || {
+                let mut st = Stats::default();
+                let sink = Sink::new();
+                scale_definition(&spec, len, &at, &mut st, &sink);
+                JobOut { stats: st, viols: sink.take(), samples: vec![json!({"explorer":"LONG (sparse oracle)","scalar":"f64","view":spec.name(),"family":label,"steps":len,"judged_steps":at.len(),"drivers":4})] }
+            }));
+        }
     }
     let o = run_jobs(jobs, ctx.seed);
     CheckOutput {
